@@ -9,6 +9,16 @@ ROOT = os.path.dirname(os.path.dirname(os.path.abspath(__file__)))
 TECH = "bounded symbolic execution of the real Python source (symx: AST lifting + z3), exhaustive over all paths within the bounds; every path and every counterexample replayed on the unlifted code"
 
 CLAIMED = {
+    "C04": ("ordering of the durable effects of commit / autopack (crash points between effects)",
+            "The real RepositoryPackCollection._commit_write_group, allocate, autopack / _do_autopack / "
+            "plan_autopack_combinations, _execute_pack_operations, _save_pack_names (+ diff / synchronise), "
+            "_clear_obsolete_packs and _obsolete_packs with in-memory bookkeeping run over record packs with SYMBOLIC "
+            "revision counts (which decide whether and what autopack combines); finishing a pack, replacing pack-names and "
+            "moving a pack to obsolete_packs are recorded as effects in the order the code performs them. After EVERY "
+            "prefix of the effects (= a crash there) the pack list names only packs that are complete and not moved away, "
+            "and the listed packs hold exactly the old or exactly the new set of revisions. Crash points inside "
+            "NewPack.finish / Packer.pack, fetch, explicit pack() and the consistency check of a real repository are outside.",
+            "a finished pack is durable as a whole, pack-names is replaced atomically, no concurrent writer (C05)"),
     "C05": ("three-way merge of pack-names (kernel)",
             "Decides the sentence 'the pack list written by any process is the three-way merge of its own changes with "
             "changes made by others' for the real _diff_pack_names / _save_pack_names / "
@@ -207,7 +217,6 @@ NOT_APPLICABLE = {
     "C01": "commit is the composition of dirstate (Rust), inventory deltas, groupcompress/btree writers and file-system I/O; the quantified objects are tree shapes and fault positions (structure to enumerate), no kernel accepts a symbolic input",
     "C02": "per-file graph heads over a real repository (vcsgraph + pack indices, compiled); histories are DAG structure, not values a solver can range over",
     "C03": "whole-repository streaming between formats through compiled (de)serialisers and I/O; only the shape of the history varies",
-    "C04": "the only variable is the crash index in a concrete sequence of file-system operations; deciding it means re-opening a real repository per prefix (enumeration of concrete runs, btree/pack parsing in Rust)",
     "C06": "behaviour of pack files, upload directory and indices on a real transport; checks run through compiled index code",
     "C08": "depends on which inventories/texts are physically present in two real repositories (CHK maps, groupcompress - Rust)",
     "C09": "dirstate (Rust) / git index (dulwich) mutations over a real file system; operation sequences are structure to enumerate (model-based testing target, not a solver target)",
